@@ -22,6 +22,8 @@ def universe():
     M1 = pygaps.Material('pgv_m1', density=2.0, batch='b1')
     M1b = pygaps.Material('pgv_m1', density=3.0)
     M2 = pygaps.Material('pgv_m2')
+    A1c = pygaps.Adsorbate('pgv_a1')  # overwriting with an item that has no properties must remove the old ones
+    M1c = pygaps.Material('pgv_m1')
     common = dict(temperature=300, pressure_mode='absolute', pressure_unit='bar', loading_basis='molar', loading_unit='mmol',
                   material_basis='mass', material_unit='g', temperature_unit='K')
     I1 = pygaps.PointIsotherm(pressure=[0.1, 0.2, 0.3], loading=[1.0, 2.0, 3.0], branch=[0, 1, 0], material='pgv_m1', adsorbate='pgv_a1', note='n1', **common)
@@ -29,7 +31,7 @@ def universe():
     m.params, m.pressure_range, m.loading_range, m.rmse = {'K': 2.0}, (0.0, 1.0), (0.0, 2.0), 0.0
     I2 = pygaps.ModelIsotherm(model=m, material='pgv_m1', adsorbate='pgv_a2', **common)
     I3 = pygaps.core.baseisotherm.BaseIsotherm(material='pgv_m2', adsorbate='pgv_a1', flag=True, **common)
-    return dict(A1=A1, A1b=A1b, A2=A2, M1=M1, M1b=M1b, M2=M2, I1=I1, I2=I2, I3=I3)
+    return dict(A1=A1, A1b=A1b, A1c=A1c, A2=A2, M1=M1, M1b=M1b, M1c=M1c, M2=M2, I1=I1, I2=I2, I3=I3)
 
 
 def iso_key(i):
@@ -55,7 +57,7 @@ def _props(obj):
     return out
 
 
-OPS = ['ads_up:A1', 'ads_ow:A1b', 'ads_del:A1', 'ads_up:A2', 'ads_del:A2', 'mat_up:M1', 'mat_ow:M1b', 'mat_del:M1', 'mat_up:M2', 'mat_del:M2',
+OPS = ['ads_up:A1', 'ads_ow:A1b', 'ads_ow:A1c', 'ads_del:A1', 'ads_up:A2', 'ads_del:A2', 'mat_up:M1', 'mat_ow:M1b', 'mat_ow:M1c', 'mat_del:M1', 'mat_up:M2', 'mat_del:M2',
        'iso_up:I1', 'iso_up_strict:I1', 'iso_up_matonly:I1', 'iso_up_adsonly:I1', 'iso_del:I1', 'iso_up:I2', 'iso_del:I2', 'iso_up:I3', 'iso_del:I3',
        'atype_up:colour', 'atype_del:colour', 'mtype_del:batch']
 
